@@ -100,4 +100,38 @@ def check(ctx):
     from .common import check_interp_options
 
     check_interp_options(ctx, "C16-f", ["bluebonnet.flow.flowproperties"], 5)
+    # ---- C16-g the stencil's step is implicit (the code divides by nothing: it relies on (p + h) - (p - h) == 1): the
+    # table interpolators that from_table hands to it must therefore *extrapolate* beyond the end rows - a clamped
+    # lookup halves the difference at the first and last row of every tabulated alpha
+    from ..values import ClassV, ExtObj, StrV
+    from .common import interp, returns
+
+    qf = FP + "FlowPropertiesTwoPhase.from_table"
+    ff = P.func(qf)
+    ctx.touch(qf)
+    it3 = interp(ctx, opaque={qa, FP + "pseudopressure_threephase"})
+    n_i = 0
+    seen_nodes = set()
+    from ..values import DictV
+
+    for p3 in returns(it3.run_function(qf, args={"cls": ClassV(P.cls(FP + "FlowPropertiesTwoPhase"))})):
+        for e in p3.events:
+            if e.kind != "int_call" or e.data["callee"] != qa:
+                continue
+            tbl = e.data["args"].get("pvt")
+            if not isinstance(tbl, DictV):
+                raise AnalysisError(f"{qf}: the pvt argument of alpha_multiphase is not a literal mapping of interpolators")
+            for name, obj in sorted(tbl.items.items()):
+                if (e.line, name) in seen_nodes:
+                    continue
+                seen_nodes.add((e.line, name))
+                n_i += 1
+                fv = obj.args.get("fill_value") if isinstance(obj, ExtObj) else None
+                ok = isinstance(obj, ExtObj) and obj.qual == "scipy.interpolate.interp1d" and isinstance(fv, StrV) and fv.s == "extrapolate"
+                ctx.check(
+                    ok, "C16-g", qf + f":pressure lookup of {name}", f"{ff.file}:{getattr(obj, 'node', e.node).lineno if isinstance(obj, ExtObj) and obj.node is not None else e.line}",
+                    "the interpolators over the pressure column that from_table hands to the +-h storage stencil extrapolate beyond the table (fill_value='extrapolate'), so the implicit step of the central difference is 2h at every row",
+                    signature="pressure lookup does not extrapolate", options={k: str(v)[:40] for k, v in (obj.args.items() if isinstance(obj, ExtObj) else []) if k not in ("x", "y")},
+                )
+    ctx.floor("C16-g", n_i, 1, "pressure interpolators built by from_table")
     ctx.floor("C16", len(ctx.obligs), 7, "storage / mobility obligations")
